@@ -661,8 +661,11 @@ def checkC10 (steps : List Step) : Option (Nat × String) := Id.run do
           if isEmit ra.frame then
             let cap := (ra.cfg.mtu - 34) / 14
             let descs := (emitDescs ra.frame).take cap
-            let bMac := match (traceOf t B).head? with | some (_, r) => r.cfg.mac | none => zeroMac
             let later := (t.filter (fun x => x.1 > idx && x.2.1 == B)).map (·.2.2)
+            -- B's address at the time of the delivery (an interface may have had another address for a while earlier on)
+            let bMac := match later.head? with
+              | some r => r.cfg.mac
+              | none => match (traceOf t B).getLast? with | some (_, r) => r.cfg.mac | none => zeroMac
             let untilReset := later.takeWhile (fun r => !isReset0 r.frame)
             let reported := untilReset.flatMap (fun r => reportedOf r.fx)
             let queried := untilReset.any (fun r => isQuery r.frame)
